@@ -690,10 +690,13 @@ func init() {
 		InitPkgs: []string{mod + "/mp4", mod + "/examples/segmenter", mod + "/examples/resegmenter", mod + "/examples/combine-segs"},
 		Instances: func(tier string, L *Loaded) []*HarnessCfg {
 			var r []*HarnessCfg
-			for _, lay := range []string{"v", "vc", "va"} {
+			for _, lay := range []string{"v", "vc", "va", "vr", "var"} {
 				for _, d := range []int{1, 40, 80, 100, 200} {
-					for _, multi := range []string{"false", "true"} {
-						r = append(r, inst(mod+"/examples/segmenter", "VerifC11Segmenter", lay, itoa(d), multi))
+					for _, mode := range []string{"single", "multi", "lazy"} {
+						if tier != "thorough" && (lay == "vr" || lay == "var") && (d == 1 || d == 100) {
+							continue
+						}
+						r = append(r, inst(mod+"/examples/segmenter", "VerifC11Segmenter", lay, itoa(d), mode))
 					}
 				}
 			}
